@@ -692,6 +692,37 @@ func (e *kvElection) endCancelledRun(run context.Context) {
 	e.notifyDemoted("context_cancelled")
 }
 
+// deleteOwnRecord removes the leadership record if it is still the one this
+// instance wrote in the term that carried token. The local claim alone does
+// not prove that: a leader that was preempted, or whose record expired and was
+// taken by a successor, learns of it only with its next heartbeat - and a
+// graceful shutdown in between must not delete the successor's record. With a
+// store that implements RevisionDeleter the look and the delete are one atomic
+// step (repeated if the record moved in between, e.g. by an own refresh whose
+// answer was lost); otherwise the delete follows the look as closely as it can.
+func (e *kvElection) deleteOwnRecord(token string) error {
+	var lastErr error
+	for attempt := 0; attempt < 3; attempt++ {
+		entry, err := e.kv.Get(e.key)
+		if err != nil {
+			return err
+		}
+		var payload leadershipPayload
+		if entry == nil || json.Unmarshal(entry.Value(), &payload) != nil ||
+			payload.ID != e.cfg.InstanceID || payload.Token != token {
+			return fmt.Errorf("record is no longer owned by this instance")
+		}
+		rd, ok := e.kv.(RevisionDeleter)
+		if !ok {
+			return e.kv.Delete(e.key)
+		}
+		if lastErr = rd.DeleteRevision(e.key, entry.Revision()); lastErr == nil || !IsPermanentError(lastErr) {
+			return lastErr
+		}
+	}
+	return lastErr
+}
+
 // runWG returns the WaitGroup of the current run, for callers that do not hold
 // the election mutex.
 func (e *kvElection) runWG() *sync.WaitGroup {
@@ -801,6 +832,7 @@ func (e *kvElection) StopWithContext(ctx context.Context, opts StopOptions) erro
 
 	wasLeader := e.isLeader.Load()
 	wg := e.wg
+	token := e.Token()
 
 	currentState := StateInit
 	if s := e.state.Load(); s != nil {
@@ -888,7 +920,7 @@ func (e *kvElection) StopWithContext(ctx context.Context, opts StopOptions) erro
 	)
 
 	if opts.DeleteKey && wasLeader {
-		if err := e.kv.Delete(e.key); err != nil {
+		if err := e.deleteOwnRecord(token); err != nil {
 			log := e.getLogger()
 			log.Warn("key_deletion_failed",
 				append(e.logWithContext(ctx),
